@@ -19,6 +19,17 @@ CHECKS.update({
              text="Bounded symbolic model checking of prune (all weak orderings incl. exact ties of n<=4(5) symbolic scores, stop/delayed/threshold variants) and of pruned-vs-unpruned / widening monotonicity over abstract geometry.",
              note="Reals; column size and graph/trace bounds as listed in evidence; AbsMap contract."),
 })
+CHECKS.update({
+ 'C03': dict(tech="symbolic execution of real match() (unique on/off in one path) over abstract geometry with symbolic cut-offs; alignment claims + index truthfulness against an admissible-walk oracle (z3)", ref="5/C03",
+             text="Bounded symbolic model checking: on every path of the real match() within the bounds the best path visits the observations in order with one emitting state each, the returned list is that path (collapsed iff unique), and the index / empty result agree with the existence of admissible walks.",
+             note="Reals; AbsMap contract; index truthfulness only emitting-only & unpruned; graphs <=4 nodes, T<=3."),
+ 'C04': dict(tech="symbolic execution of real match()/widen/extend over abstract geometry against an adjacency oracle from the graph dictionary; CrossHair on node_path_to_only_nodes", ref="5/C04",
+             text="Bounded symbolic model checking: every state on every reachable best path exists in the map and consecutive states are moves the map offers (incl. linked pair, one-way, dead ends, self-listing on/off); nodes-only view computed by the real code is adjacent and repeat-free; CrossHair confirms node_path_to_only_nodes over all int labels for the stated sequence shapes.",
+             note="AbsMap mirrors InMemMap's neighbour listing; SqliteMap neighbour relation is covered by C12; graphs <=4-5 nodes."),
+ 'C09': dict(tech="symbolic execution of operation sequences with the invariant asserted after every operation; inductive-step harness on LatticeColumn.upsert; z3 QF_FP lemma generated from the AST of BaseMatching.next", ref="5/C09",
+             text="Bounded symbolic model checking of lattice well-formedness after each of <=3 operations (match, widen, extend, continue_with_distance, repeated match); one-step upsert harness from an arbitrary entry (identity of filed entries preserved, better candidate kept); IEEE-754 guard lemma (emitting Float64, non-emitting Float16/32).",
+             note="Reals except the FP lemma; non-emitting FP lemma only at reduced width (stated); sequences longer than 3 outside."),
+})
 NA = {
  'C15': "error bound between two transcendental computations (great-circle vs locally projected planar): needs a delta-complete procedure for sin/cos/atan2; z3 has none and cvc5 QF_NRAT timed out on the 3-variable core (DESIGN.md section 8)",
 }
